@@ -270,7 +270,25 @@ extern "C" int sim_os_open(const char *path) {
     }
     c.opens++; c.fds_open++;
     bump(w, CT_P_TRNG_FD_OPENED);
-    return w.plan->fd_base + (c.fd_next++);
+    int fd = w.plan->fd_base + (c.fd_next++);
+    if (c.nfds < 16) c.fds[c.nfds++] = fd;
+    return fd;
+}
+// dup / fcntl(F_DUPFD*) on a simulated descriptor: a new descriptor that must be closed too
+extern "C" int sim_os_dup(int fd, int minfd) {
+    World *wp = g_world;
+    if (!wp || wp->cur < 0 || wp->oracle) { errno = EBADF; return -1; }
+    World &w = *wp;
+    TaskState &t = *w.ts[w.cur];
+    CurOp &c = t.cur;
+    sim_point(SK_OS, 32);
+    bool known = false;
+    for (int i = 0; i < c.nfds; i++) if (c.fds[i] == fd) known = true;
+    if (!known) { errno = EBADF; return -1; }
+    int nfd = std::max(minfd, w.plan->fd_base + 100 + (c.fd_next++));
+    c.opens++; c.fds_open++;
+    if (c.nfds < 16) c.fds[c.nfds++] = nfd;
+    return nfd;
 }
 extern "C" int sim_os_close(int fd) {
     World *wp = g_world;
@@ -278,8 +296,11 @@ extern "C" int sim_os_close(int fd) {
     World &w = *wp;
     TaskState &t = *w.ts[w.cur];
     sim_point(SK_OS, 31);
-    if (fd >= w.plan->fd_base) { t.cur.closes++; t.cur.fds_open--; }
-    return 0;
+    CurOp &c = t.cur;
+    for (int i = 0; i < c.nfds; i++)
+        if (c.fds[i] == fd) { c.fds[i] = c.fds[--c.nfds]; c.closes++; c.fds_open--; return 0; }
+    errno = EBADF;   // not a descriptor this call opened
+    return -1;
 }
 // seam at tinyjambu_trng_generate (from the link-time wrapper)
 extern "C" int sim_trng_pre(void) {
@@ -430,6 +451,9 @@ static void do_hmac(World &w, TaskState &t, const Op &op, int index) {
         if (o.st == ST_LIVE && !o.msg.empty()) { bump(w, CT_P_HMAC_REINIT_MID); bump(w, CT_F_ABANDON); ev = 2; }
         op_bytes(o.key, (size_t)op.a, op, 2);
         o.key_null = o.key.empty() && (op.flags & F_NULLPTR);
+        // the caller keeps its key in one long-lived buffer: a new key of the same length lands at the same address
+        if (o.keybuf.size() < o.key.size() + 8) o.keybuf.resize(std::max<size_t>(2200, o.key.size() + 8));
+        if (!o.key.empty()) memcpy(o.keybuf.data(), o.key.data(), o.key.size());
         switch (keyclass(o.key.size())) {
         case 0: bump(w, CT_P_HMAC_KEY_EMPTY); break;
         case 1: bump(w, CT_P_HMAC_KEY_LT64); break;
@@ -437,7 +461,7 @@ static void do_hmac(World &w, TaskState &t, const Op &op, int index) {
         default: bump(w, CT_P_HMAC_KEY_GT64); break;
         }
         if (on) state(w, 0x120000u | (keyclass(o.key.size()) << 4) | ev | (op.kind == M_REINIT ? 8u : 0u));
-        const unsigned char *kp = o.key_null ? nullptr : (o.key.empty() ? g_dummy : o.key.data());
+        const unsigned char *kp = o.key_null ? nullptr : o.keybuf.data();
         { CallScope cs(t); if (op.kind == M_INIT) tinyjambu_hmac_init(st, kp, o.key.size()); else tinyjambu_hmac_reinit(st, kp, o.key.size()); }
         o.st = ST_LIVE; o.msg.clear(); o.ever_init = true;
         fence_check(w, o.m, C12, "HMAC state");
@@ -462,7 +486,7 @@ static void do_hmac(World &w, TaskState &t, const Op &op, int index) {
         Buf out(32, (size_t)(op.b & 7)); memset(out.p, 0xEE, 32);
         Buf kcopy(o.key.size(), (size_t)((op.b >> 3) & 7));   // the same key, supplied again from a different address
         if (!o.key.empty()) memcpy(kcopy.p, o.key.data(), o.key.size());
-        const unsigned char *kp = o.key_null ? nullptr : kcopy.p;
+        const unsigned char *kp = o.key_null ? nullptr : ((op.b & 64) ? kcopy.p : o.keybuf.data());   // same buffer or a copy elsewhere
         { CallScope cs(t); tinyjambu_hmac_finalize(st, kp, o.key.size(), out.p); }
         o.st = ST_FINAL;
         if (on) {
@@ -688,6 +712,7 @@ static void do_prng(World &w, TaskState &t, const Op &op, int index) {
     o.owner = &t; o.index = op.obj % NOBJ;
     CurOp &c = t.cur;
     c.gen = &o; c.dev_req = 0; c.os_req = 0; c.genbuf = nullptr; c.gensize = 0; c.os_active = false; c.os_terminal = -1; c.os_calls = 0;
+    c.opens = c.closes = 0; c.fds_open = 0; c.fd_next = 0; c.nfds = 0;
     const int model_prop = o.system || (op.kind == P_INIT && (op.flags & (F_SYSTEM | F_NULLCB))) ? C18 : C15;
     const bool model_on = (w.armed == model_prop || w.armed == PR_NONE);
     switch (op.kind) {
@@ -909,6 +934,7 @@ static void do_prng(World &w, TaskState &t, const Op &op, int index) {
     }
     default: break;
     }
+    if (c.fds_open != 0) report(w, C18, "fd-leak", std::to_string(c.opens) + " descriptors opened, " + std::to_string(c.closes) + " closed during one PRNG call on the system source");
     c.gen = nullptr;
 }
 
@@ -917,7 +943,7 @@ extern "C" int tinyjambu_trng_generate(unsigned char *out);
 static void do_trng(World &w, TaskState &t, const Op &op, int index) {
     CurOp &c = t.cur;
     c.gen = nullptr; c.os_req = 0; c.os_active = false; c.os_terminal = -1; c.os_calls = 0; c.os_extra = 0; c.os_have_ok = false;
-    c.opens = c.closes = 0; c.fds_open = 0; c.fd_next = 0;
+    c.opens = c.closes = 0; c.fds_open = 0; c.fd_next = 0; c.nfds = 0;
     Buf out(32, (size_t)(op.b & 7));
     memset(out.p, 0xA5, 32);
     int rc;
@@ -975,8 +1001,9 @@ static void do_aead(World &w, TaskState &t, const Op &op, int index) {
         std::vector<uint8_t> pkt(mlen + 8);
         { OracleScope os(w); size_t clen = 0; ENC[v](pkt.data(), &clen, msg.empty() ? g_dummy : msg.data(), mlen, adb.p, adlen, nonce.data(), key.data()); }
         if (op.flags & F_CORRUPT) { size_t bit = (size_t)((op.d >> 8) % ((mlen + 8) * 8)); pkt[bit / 8] ^= (uint8_t)(1u << (bit % 8)); }
-        Buf m(mlen + 8, (size_t)((op.d >> 2) & 3));
-        memset(m.p, 0xEE, mlen + 8);
+        const bool inpl = (op.flags & F_INPLACE) != 0;
+        Buf m(inpl ? mlen + 8 : mlen, (size_t)((op.d >> 2) & 3));   // out of place: exactly the plaintext length
+        memset(m.p, 0xEE, inpl ? mlen + 8 : mlen);
         const unsigned char *cp = pkt.data();
         if (op.flags & F_INPLACE) { memcpy(m.p, pkt.data(), mlen + 8); cp = m.p; }
         size_t outlen = 0; int rc;
@@ -1012,6 +1039,7 @@ void exec_op(World &w, TaskState &t, const Op &op, int index) {
     if (g_beacon) { g_beacon->op_kind = op.kind; g_beacon->op_flags = op.flags; }
     if (w.stats) { w.stats->c[CT_OPS]++; if (op.kind > 0 && op.kind < OP_KIND_COUNT) w.stats->opk[op.kind]++; }
     uint64_t heap0 = w.heap_calls;
+    uint64_t asan_r0 = g_asan_reports, asan_w0 = g_asan_writes;
     switch (op.kind) {
     case H_INIT: case H_REINIT: case H_UPDATE: case H_FINAL: case H_FREE: case H_DIRTY: do_hash(w, t, op, index); break;
     case M_INIT: case M_REINIT: case M_UPDATE: case M_FINAL: case M_FREE: case M_DIRTY: case M_ONESHOT: do_hmac(w, t, op, index); break;
@@ -1025,6 +1053,17 @@ void exec_op(World &w, TaskState &t, const Op &op, int index) {
     }
     if (w.heap_calls != heap0)
         report(w, C19, "heap-call", std::string("library code called the allocator during ") + op_name(op.kind));
+    if (g_asan_writes != asan_w0) {
+        // a store outside the buffers the caller handed in: somebody else's bytes (another state object, the bytes next
+        // to a requested range) were written. Only counted where that is what the armed statement is about.
+        bool relevant = true;
+        if (w.armed == C20) relevant = (op.kind == H_FREE || op.kind == M_FREE || op.kind == K_FREE || op.kind == P_FREE || op.kind == X_CLEAN);
+        if (w.armed == C16) relevant = false;
+        if (relevant) report(w, w.armed, "sanitizer-write", std::string(op_name(op.kind)) + ": " + g_asan_first);
+        else bump(w, CT_ASAN_READ_OBS);
+    } else if (g_asan_reports != asan_r0) {
+        bump(w, CT_ASAN_READ_OBS); // over-read: memory safety (C06, not claimed) -- an observation, never a violation
+    }
     t.cur.op = nullptr;
 }
 
